@@ -50,6 +50,12 @@ pub fn c09(rep: &mut Report, cfg: &Cfg) {
     let mut rng = cfg.rng(check);
     let mut cpu = Cpu::new();
     let mut mem = Mem::new();
+    // the model starts from whatever a fresh machine holds (initial contents are not pinned)
+    for ri in 0..5 {
+        let src = region_slices(&cpu)[ri].to_vec();
+        let n = src.len().min(mem.r[ri].len());
+        mem.r[ri][..n].copy_from_slice(&src[..n]);
+    }
     let (rs_seed, rs_shard) = (cfg.seed, cfg.shard);
     let replay_sweep = move |what: &str, a: u32| format!("check=C09 kind=bus what={} addr={:x} seed={} shard={}", what, a, rs_seed, rs_shard);
 
